@@ -163,6 +163,10 @@ func c18Replay(c *hx.Ctx) {
 			c18Constructed(c)
 			constructedDone = true
 		}
+		if strings.HasPrefix(line, "direct store_map conc-") {
+			c18ConcurrentStore(c) // schedules are not reproducible: the families are run again
+			continue
+		}
 		f := strings.Fields(line)
 		if len(f) == 0 {
 			continue
@@ -350,6 +354,7 @@ func runC18(c *hx.Ctx) {
 	}
 	c.Stat("direct_windows", 6)
 	c18Constructed(c)
+	c18ConcurrentStore(c)
 	// T-exh: every one of the 65536 counter states
 	for s := 0; s < 65536; s++ {
 		ctr := session.NewIDCounterWithNext(packet.ID(s))
